@@ -738,8 +738,6 @@ static int load_touchstone1(ts_parser_state_t *tpsp)
 	 */
 	tpsp->tps_ports = 2;
 	if (vnadata_init(vdp, tpsp->tps_parameter_type, 2, 2, 0) == -1) {
-	    _vnadata_error(vdip, VNAERR_SYSTEM,
-		    "realloc: %s", strerror(errno));
 	    return -1;
 	}
 	(void)vnadata_set_all_z0(vdp, tpsp->tps_z0);
@@ -765,8 +763,6 @@ static int load_touchstone1(ts_parser_state_t *tpsp)
     }
     if (vnadata_init(vdp, tpsp->tps_parameter_type,
 		tpsp->tps_ports, tpsp->tps_ports, /*frequencies*/0) == -1) {
-	_vnadata_error(vdip, VNAERR_SYSTEM,
-		"realloc: %s", strerror(errno));
 	return -1;
     }
     (void)vnadata_set_all_z0(vdp, tpsp->tps_z0);
@@ -797,8 +793,6 @@ static int load_touchstone1(ts_parser_state_t *tpsp)
 	    }
 	    if (vnadata_add_frequency(vdp, tpsp->tps_frequency_multiplier *
 			tpsp->tps_value_vector[0]) == -1) {
-		_vnadata_error(vdip, VNAERR_SYSTEM,
-			"realloc: %s", strerror(errno));
 		return -1;
 	    }
 
@@ -854,8 +848,6 @@ static int load_touchstone1(ts_parser_state_t *tpsp)
 		    if (vnadata_resize(vdp, tpsp->tps_parameter_type,
 				tpsp->tps_ports, tpsp->tps_ports,
 				findex + 1) == -1) {
-			_vnadata_error(vdip, VNAERR_SYSTEM,
-				"realloc: %s", strerror(errno));
 			return -1;
 		    }
 		    (void)vnadata_set_all_z0(vdp, tpsp->tps_z0);
@@ -895,8 +887,6 @@ static int load_touchstone1(ts_parser_state_t *tpsp)
 	    }
 	    if (vnadata_add_frequency(vdp, tpsp->tps_frequency_multiplier *
 			tpsp->tps_value_vector[0]) == -1) {
-		_vnadata_error(vdip, VNAERR_SYSTEM,
-			"realloc: %s", strerror(errno));
 		return -1;
 	    }
 	    for (column = 0; column < tpsp->tps_ports; ++column) {
@@ -1512,8 +1502,6 @@ int _vnadata_load_touchstone(vnadata_internal_t *vdip, FILE *fp,
      */
     if (vnadata_init(vdp, tps.tps_parameter_type, tps.tps_ports,
 		tps.tps_ports, number_of_frequencies) == -1) {
-	_vnadata_error(vdip, VNAERR_SYSTEM,
-		"realloc: %s", strerror(errno));
 	goto out;
     }
 
